@@ -593,7 +593,7 @@ func (p *jsonPathParser) pushCompareNE(
 
 func (p *jsonPathParser) pushCompareGE(
 	leftParam, rightParam *syntaxBasicCompareParameter) {
-	if leftParam.isLiteral {
+	if leftParam.isLiteral && !rightParam.isLiteral {
 		p.pushCompareLE(rightParam, leftParam)
 		return
 	}
@@ -602,7 +602,7 @@ func (p *jsonPathParser) pushCompareGE(
 
 func (p *jsonPathParser) pushCompareGT(
 	leftParam, rightParam *syntaxBasicCompareParameter) {
-	if leftParam.isLiteral {
+	if leftParam.isLiteral && !rightParam.isLiteral {
 		p.pushCompareLT(rightParam, leftParam)
 		return
 	}
@@ -611,7 +611,7 @@ func (p *jsonPathParser) pushCompareGT(
 
 func (p *jsonPathParser) pushCompareLE(
 	leftParam, rightParam *syntaxBasicCompareParameter) {
-	if leftParam.isLiteral {
+	if leftParam.isLiteral && !rightParam.isLiteral {
 		p.pushCompareGE(rightParam, leftParam)
 		return
 	}
@@ -620,7 +620,7 @@ func (p *jsonPathParser) pushCompareLE(
 
 func (p *jsonPathParser) pushCompareLT(
 	leftParam, rightParam *syntaxBasicCompareParameter) {
-	if leftParam.isLiteral {
+	if leftParam.isLiteral && !rightParam.isLiteral {
 		p.pushCompareGT(rightParam, leftParam)
 		return
 	}
